@@ -95,13 +95,13 @@ def _props(kind, n):
     if kind in ('vel', 'mid', 'full'):
         p['velocity'] = np.outer(k + 1, [0.4321987654321, -1.2345678901234, 2.7182818284590]) + [0.1, -0.25, 0.0]
     if kind in ('mid', 'full'):
-        p['charge'] = np.array([-0.5, 1.25, 0.7531, -1.5031])[:n]
+        p['charge'] = np.array([-0.5, 1.25, 0.7531, -1.5031, 2.0625, -0.3137])[:n]
         p['stress'] = (np.arange(9.0).reshape(3, 3) - 3.3)[None] * (k + 0.37)[:, None, None] * 0.01234567
         p['tag'] = (ki * 7 + 3) % 5
     if kind == 'full':
         p['m_id'] = ki // 2 + 1
         p['mu'] = np.outer(k - 1.3, [0.11, -0.23, 0.37])
-        p['espin'] = np.array([1, -1, 0, 2])[:n]
+        p['espin'] = np.array([1, -1, 0, 2, 3, 1])[:n]
         p['eradius'] = 0.5 + 0.13 * k
         p['bflag'] = np.zeros(n, dtype=int)
         p['mass'] = 26.98 + 1.37 * k
